@@ -22,7 +22,9 @@ RULE = ("random operation histories (length <= 12, thorough <= 16) over a pool o
         "overriding __radd__; operations: constructors, copy, +, 0+s, s+0, sum, *, reflected *, /, *=, /=, "
         "with_times, shift, FunctionSignal.filter_frequencies / set_buffers, and composite steps that filter (and buffer) a "
         "function-backed signal and add it to a sampled signal on the same grid in either order, or re-grid the SAME object "
-        "repeatedly onto grids of equal length and end points (once more after an in-place scaling); generating functions as plain functions, stateful callable objects or functools.partial; array arguments as "
+        "repeatedly onto grids of equal length and end points (once more after an in-place scaling); generating functions as plain functions, stateful callable objects or functools.partial, incl. functions that "
+        "write to their argument in place; an EmptySignal on the LEFT of a function-backed operand (+, +=, sum with "
+        "start) with the result copied / scaled / shifted and re-gridded; array arguments as "
         "ndarray / list / tuple, value types as name / Enum member / int, scale factors as Python or numpy scalars or 0-d "
         "arrays incl. 1, 0.1 and division by 3; a step is non-trivial when "
         "it creates or mutates an object (errors and refusals are counted separately); distinct = "
@@ -39,7 +41,7 @@ LEVEL_NOTE = ("Assumed: numpy array allocation/copy semantics (np.array copies, 
               "table attributes) and from functools.partial over a mutable parameter list - a new object per signal, in the "
               "initial state equal to a pool function; the Lean step model sees only the pool code (function identity and "
               "state are carried by the small model Sig.deepcopyFns and by the poke oracle, which edits every function "
-              "object in place and watches all other signals); they are evaluated for a pool of nine functions (four of them accept scalar times only and raise TypeError / ValueError on arrays, so that the one-at-a-time fallback of FunctionSignal.values is exercised) and scalar-gain filters.  "
+              "object in place and watches all other signals); they are evaluated for a pool of eleven functions (two of them write to their argument in place, four accept scalar times only and raise TypeError / ValueError on arrays, so that the one-at-a-time fallback of FunctionSignal.values is exercised) and scalar-gain filters.  "
               "Arrays hold float64 values and are handed over as ndarray, list or tuple; value types as name, Enum member or int; "
               "scale factors as Python int/float, numpy float64/int64 scalar or 0-d array "
               "(integer / float32 dtype arrays make `*=`/`+=` with a float raise or round and are excluded).  "
@@ -123,6 +125,14 @@ def env():
     def f8(t):  # scalar only, branch on the sign of t
         return 3 * t + 1 if t >= 0 else 1 - t
 
+    def f9(t):  # re-centres ITS ARGUMENT in place (harmless as long as it receives a temporary array)
+        t -= 2.0
+        return t * t
+
+    def f10(t):  # rescales its argument in place
+        t *= 2.0
+        return t + 1.0
+
     def g0(f):
         return 0.5 * np.ones(len(f))
 
@@ -154,7 +164,7 @@ def env():
         return params[0] * base(t) + params[1]
     _cache.update(Template=Template, param_fn=param_fn, partial=functools.partial)
     _cache.update(np=np, S=S, UserSig=UserSig, UserFunc=UserFunc,
-                  fns=[f0, f1, f2, f3, f4, f5, f6, f7, f8], gains=[g0, g1, g2, g3],
+                  fns=[f0, f1, f2, f3, f4, f5, f6, f7, f8, f9, f10], gains=[g0, g1, g2, g3],
                   gainv=[0.5, 2.0, -1.0, 1.0])
     _cache["clsname"] = {S.Signal: "signal", S.EmptySignal: "empty", S.FunctionSignal: "func",
                          S.GaussianNoise: "gauss", UserSig: "userSig", UserFunc: "userFunc"}
@@ -390,6 +400,15 @@ class Impl:
         if k == "add":
             def val(x):
                 return self.objs[x[1]] if x[0] == "o" else x[1]
+            sel = (len(self.objs) + len(self.exts)) % 3
+            if sel == 1 and op[1][0] == "o" and op[2][0] == "o":
+                def iadd():                 # `w = a; w += b` (no __iadd__: falls back to __add__, `a` is untouched)
+                    w = val(op[1])
+                    w += val(op[2])
+                    return w
+                return self.guarded(iadd)
+            if sel == 2 and op[1][0] == "o" and op[2][0] == "o" and isinstance(val(op[1]), env()["S"].EmptySignal):
+                return self.guarded(lambda: sum([val(op[2])], val(op[1])))      # sum(..., start=empty)
             return self.guarded(lambda: val(op[1]) + val(op[2]))
         if k == "mul":
             return self.guarded(lambda: self.objs[op[1]] * self.scalar_form(op[2]))
@@ -549,7 +568,7 @@ def gen_history(run, im, nsteps):
     rng = run.rng
     grids = [gen_grid(rng) for _ in range(rng.choice([1, 2, 2, 3]))]
     # DECREASING grids: np.interp (sampled signals) has no meaning there, but function-backed and empty signals do -
-    # such histories only build function-backed / empty signals
+    # such histories only build function-backed signals
     decreasing = rng.random() < 0.08
     if decreasing:
         grids = [list(reversed(g)) for g in grids]
@@ -579,7 +598,7 @@ def gen_history(run, im, nsteps):
         vt = rng.choice(VTS + ["undefined", "voltage"])
         r = rng.random()
         if decreasing:
-            r = 0.45 + 0.55 * r
+            r = 0.6 + 0.4 * r      # function-backed only (a scaled EmptySignal would be a sampled Signal)
         if r < 0.35:
             v = ext(gen_values(rng, len(grids[gi])))
             do(("mk", rng.choice(["signal", "signal", "userSig"]), t, v, vt))
@@ -589,7 +608,7 @@ def gen_history(run, im, nsteps):
         elif r < 0.6:
             do(("mkEmpty", t, vt))
         else:
-            do(("mkFunc", rng.choice(["func", "func", "userFunc"]), t, rng.choice([0, 1, 2, 3, 4, 5, 5, 6, 6, 7, 7, 8, 8]), vt))
+            do(("mkFunc", rng.choice(["func", "func", "userFunc"]), t, rng.choice([0, 1, 2, 3, 4, 5, 5, 6, 6, 7, 7, 8, 8, 9, 9, 9, 10, 10]), vt))
 
     for _ in range(rng.choice([2, 3, 3, 4])):
         new_signal()
@@ -663,6 +682,29 @@ def gen_history(run, im, nsteps):
                 do(("imul", k, rng.choice([2.0, -1.0, 0.5])))
             do(("withTimes", k, ext(span)))
             run.count("regrid_same_object_repeatedly")
+        elif r < 0.925 and not decreasing:
+            fs = [i for i, s in enumerate(im.objs) if isinstance(s, S.FunctionSignal) and len(s.times) >= 2]
+            if not fs:
+                continue
+            k = rng.choice(fs)
+            g = [float(x) for x in im.objs[k].times]
+            if do(("mkEmpty", ext(g), rng.choice(["undefined", vt_name(im.objs[k])]))).startswith("obj "):
+                e = len(im.objs) - 1
+                rep = do(("add", ("o", e), ("o", k)))          # empty + f  (also as `w += f` / sum([f], empty))
+                do(("add", ("o", k), ("o", e)))                # f + empty must agree
+                if rep.startswith("obj "):
+                    m = int(rep.split()[1])
+                    q = rng.random()
+                    if q < 0.3:
+                        do(("copy", m))
+                        m = len(im.objs) - 1
+                    elif q < 0.6:
+                        do(("mul", m, rng.choice([2.0, 0.5, -1.0])))
+                        m = len(im.objs) - 1
+                    elif q < 0.8 and all(Fraction(float(t)) + Fraction(0.5) == Fraction(float(t + 0.5)) for t in im.objs[m].times):
+                        do(("shift", m, 0.5))
+                    do(("withTimes", m, ext(regrid(rng, [float(x) for x in im.objs[m].times]))))
+                run.count("empty_left_of_function_backed")
         elif r < 0.94:
             # mixed history: a FILTERED (and possibly buffered) function-backed signal combined with a sampled
             # signal on the same grid, in both operand orders, then scaled and re-gridded
@@ -963,7 +1005,8 @@ def fn_direct(s, times):
         for i, t in enumerate(times):
             u = Fraction(float(t)) - Fraction(float(t0))
             v = [u, u * u, Fraction(1), 2 * u + 1, abs(u), Fraction(1 if u >= 0 else 0),
-                 abs(u) + 2 * u, (-2 * u if u < 0 else u * u), (3 * u + 1 if u >= 0 else 1 - u)][code]
+                 abs(u) + 2 * u, (-2 * u if u < 0 else u * u), (3 * u + 1 if u >= 0 else 1 - u),
+                 (u - 2) * (u - 2), 2 * u + 1][code]
             v = Fraction(float(amp)) * v + Fraction(float(off))
             tot[i] += v * Fraction(float(fac)) * g
     return tot
@@ -988,6 +1031,22 @@ def oracle_step(run, im, op, rep, before, hist):
     if rep.startswith("crash:"):
         fail.append("%s raised %s on a valid call (argument forms: ndarray / list / tuple, type as name / Enum / int)"
                     % (k, rep[6:]))
+    # 1a. merely reading `values` must not move the time grid, and a re-evaluation gives the same values
+    for j, s in enumerate(im.objs):
+        if isinstance(s, S.FunctionSignal):
+            t0 = s.times.copy()
+            v = im.values_of(s)
+            if not np.array_equal(t0, s.times):
+                fail.append("reading values of function-backed object %d moved its time grid: %s -> %s"
+                            % (j, list(t0), list(s.times)))
+            if v != "raise":
+                with warnings.catch_warnings():
+                    warnings.simplefilter("ignore")
+                    c = s.copy()
+                    v2 = [float(x) for x in c.values]
+                if v2 != v or not np.array_equal(c.times, t0):
+                    fail.append("a copy of function-backed object %d re-evaluates to %s on %s, the object reports %s on %s"
+                                % (j, v2, list(c.times), v, list(t0)))
     # 1b. a function-backed signal always reports the direct evaluation of its definition on its own times
     #     (Σ factor·gains·f(t − t0); vectorised and scalar-only functions alike)
     for j, s in enumerate(im.objs):
@@ -1054,7 +1113,7 @@ def _operands(op):
 
 def rederive(im, op, new):
     E = env()
-    S = E["S"]
+    S, np = E["S"], E["np"]
     k = op[0]
     fail = []
     nv = im.values_of(new)
@@ -1071,6 +1130,23 @@ def rederive(im, op, new):
             fail.append("value type of sum is %s, expected %s" % (vt_name(new), want_vt))
         if list(new.times) != list(a.times):
             fail.append("sum is not on the operands' time grid")
+        fb = [x for x in (a, b) if isinstance(x, S.FunctionSignal)]
+        if fb and any(isinstance(x, S.EmptySignal) for x in (a, b)):
+            # the empty signal is neutral: the sum is still function-backed and re-gridding it re-evaluates exactly
+            f = fb[0]
+            if not isinstance(new, S.FunctionSignal):
+                fail.append("empty %s function-backed is a %s, not function-backed" %
+                            ("+" if isinstance(a, S.EmptySignal) else "on the right of a", type(new).__name__))
+            if len(f.times) >= 2 and all(np.diff(f.times) > 0):
+                g = [float(x) for x in f.times]
+                mid = sorted(set(g + [(x + y) / 2 for x, y in zip(g, g[1:])] + [g[0] - (g[1] - g[0]) / 2]))
+                with warnings.catch_warnings():
+                    warnings.simplefilter("ignore")
+                    got = [float(x) for x in new.with_times(np.array(mid)).values]
+                want = fn_direct(f, mid)
+                if not all(near(x, w) for x, w in zip(got, want)):
+                    fail.append("re-gridding (empty + function-backed) interpolates instead of re-evaluating: %s vs %s"
+                                % (got, [float(w) for w in want]))
         if "raise" not in (va, vb, nv) and not all(near(x, Fraction(p) + Fraction(q)) for x, p, q in zip(nv, va, vb)):
             fail.append("sum is not pointwise: %s + %s -> %s" % (va, vb, nv))
     elif k in ("mul", "rmul", "div"):
